@@ -399,7 +399,8 @@ struct C17 : World {
       else { int n = 1 + (int)r.below(6); if (n == 1 && r.chance(2, 3)) n = 3; for (int i = 0; i < n; i++) pat += (char)rnd_char(r); }
       int prog = r.chance(1, 2) ? 0 : 1 + (int)r.below(2);
       // patsrc 1: literal taken from the displayed text of a cached page (patarg selects page/offset, patlen the length)
-      o.a = {pgno - 0x100, (int64_t)(r.chance(1, 2) ? 0 : r.below(5)), (int64_t)r.below(2), regexp ? 1 : 0, prog, 1 + (int64_t)r.below(6), (!regexp && r.chance(1, 3)) ? 1 : 0, (int64_t)r.below(100000), 2 + (int64_t)r.below(10)};
+      // patsrc 2: the same, at a place where a partial match overlaps the occurrence
+      o.a = {pgno - 0x100, (int64_t)(r.chance(1, 2) ? 0 : r.below(5)), (int64_t)r.below(2), regexp ? 1 : 0, prog, 1 + (int64_t)r.below(6), (!regexp && r.chance(1, 2)) ? 1 + (int64_t)r.below(2) : 0, (int64_t)r.below(100000), 2 + (int64_t)r.below(10)};
       o.s = pat;
       p.ops.push_back(o);
       int n = 1 + (int)r.below(r.chance(1, 3) ? 8 : 24);
@@ -713,7 +714,28 @@ struct C17 : World {
           sctx.fold = op->arg(2) & 1; sctx.regexp = op->arg(3) & 1;
           sctx.prog_mode = (int)(llabs(op->arg(4)) % 3); sctx.cancel_n = 1 + (int)(llabs(op->arg(5)) % 8);
           std::vector<uint16_t> pat; for (unsigned char ch : op->s) pat.push_back(ch);
-          if (!sctx.regexp && (op->arg(6) & 1) && !store.empty()) {
+          if (!sctx.regexp && llabs(op->arg(6)) % 3 == 2 && !store.empty()) {
+            // literal cut from a cached page at a place where an attempt that starts p characters earlier matches beyond
+            // the real start and then fails (text "aaab", pattern "aab"): a matcher that resumes behind a failed attempt
+            // instead of one character after its start misses the occurrence
+            auto it = store.begin(); std::advance(it, (long)(llabs(op->arg(7)) % (int64_t)store.size()));
+            const Derived& d = der(it->first);
+            const auto& t = d.t1;
+            size_t n = t.size(), start = n ? (size_t)(llabs(op->arg(7)) / 7) % n : 0;
+            bool done = false;
+            for (size_t step = 0; step < n && !done; step++) {
+              size_t off = (start + step) % n;
+              for (size_t L = 3 + (size_t)(llabs(op->arg(8)) % 6); L >= 3 && !done; L--) {
+                if (off + L > n) continue;
+                bool sep = false; for (size_t k = 0; k < L; k++) if (t[off + k] == 0x0A) sep = true;
+                if (sep) continue;
+                for (size_t p2 = 1; p2 < L && p2 <= off && !done; p2++) {
+                  size_t k = 0; while (k < L && t[off - p2 + k] == t[off + k] && t[off - p2 + k] != 0x0A) k++;
+                  if (k > p2 && k < L) { pat.assign(t.begin() + (long)off, t.begin() + (long)(off + L)); done = true; c.count("pattern_behind_partial_match"); }
+                }
+              }
+            }
+          } else if (!sctx.regexp && llabs(op->arg(6)) % 3 == 1 && !store.empty()) {
             // literal copied from the displayed text of a cached page (may span double width characters)
             auto it = store.begin(); std::advance(it, (long)(llabs(op->arg(7)) % (int64_t)store.size()));
             const Derived& d = der(it->first);
